@@ -1,7 +1,7 @@
 (* C09 - repository operations affect exactly their own repository.
-   Statements only; proofs are in Proofs/RepoProofs.v. *)
+   Statements only; proofs are in Proofs/RepoProofs.v and Proofs/DeleteFiles.v. *)
 From Coq Require Import List String NArith Bool.
-From DM Require Import Base.Str Gen.Paths Model.Meta Model.RepoOps Proofs.RepoProofs.
+From DM Require Import Base.Str Gen.Paths Model.Meta Model.Bundle Model.RepoOps Proofs.RepoProofs Proofs.DeleteFiles.
 Import ListNotations.
 Open Scope list_scope.
 
@@ -35,3 +35,44 @@ Theorem C09_delete_bundle_frame : forall r id m k, under_bundle r id k = false -
   mget k (delete_bundle_quiet r id m) = mget k m.
 Proof. exact delete_bundle_frame. Qed.
 Print Assumptions C09_delete_bundle_frame.
+
+(* delete-files on one bundle stored as the file lists ls (none of them longer than E entries): the
+   bundle afterwards holds exactly the entries whose path was not named, in their order, in a layout
+   the reader accepts (every list but the last full); file lists no longer needed are gone and no
+   key outside bundles/<repo>/<id>/ changes *)
+Theorem C09_delete_files_bundle : forall E r id ls paths m,
+  0 < E -> noslash r = true -> noslash id = true ->
+  stored r id ls m -> Forall (fun l => List.length l <= E) ls ->
+  exists ls' m',
+    scrub_bundle E r id (N.of_nat (List.length ls)) paths m = Some m' /\
+    stored r id ls' m' /\ wf_layout E ls' /\
+    List.concat ls' = keep_entries paths (List.concat ls) /\
+    (forall j, List.length ls' <= j -> j < List.length ls ->
+               mget (GetArchivePathToBundleFileList r id (N.of_nat j)) m' = None) /\
+    (forall k, under_bundle r id k = false -> mget k m' = mget k m).
+Proof. exact scrub_bundle_exact. Qed.
+Print Assumptions C09_delete_files_bundle.
+
+(* ... and reading the bundle back with the reader's per-list count checks yields those entries *)
+Theorem C09_delete_files_reads_back : forall E r id ls paths m,
+  0 < E -> noslash r = true -> noslash id = true ->
+  stored r id ls m -> Forall (fun l => List.length l <= E) ls ->
+  exists (ls' : list (list entry)) m', scrub_bundle E r id (N.of_nat (List.length ls)) paths m = Some m' /\
+    mget (GetArchivePathToBundle r id) m' = Some (VBundle id (N.of_nat (List.length ls'))) /\
+    unpack_lists E (List.length ls') 0
+      (fun j => match mget (GetArchivePathToBundleFileList r id (N.of_nat j)) m' with Some (VIndex es) => Some es | _ => None end)
+    = Some (keep_entries paths (List.concat ls)).
+Proof. exact scrub_bundle_reads_back. Qed.
+Print Assumptions C09_delete_files_reads_back.
+
+(* the whole repository: every bundle is left with exactly its other entries, and nothing that is
+   not below one of those bundles changes (other repositories, labels, the repository descriptor) *)
+Theorem C09_delete_files_repo : forall E r paths ids m (lay : string -> list (list entry)),
+  0 < E -> noslash r = true -> NoDup ids -> (forall id, In id ids -> noslash id = true) ->
+  (forall id, In id ids -> stored r id (lay id) m /\ Forall (fun l => List.length l <= E) (lay id)) ->
+  exists m', scrub_bundles E r paths ids m = (ROk, m') /\
+    (forall id, In id ids -> exists ls', stored r id ls' m' /\ wf_layout E ls' /\
+                                          List.concat ls' = keep_entries paths (List.concat (lay id))) /\
+    (forall k, (forall id, In id ids -> under_bundle r id k = false) -> mget k m' = mget k m).
+Proof. exact scrub_bundles_exact. Qed.
+Print Assumptions C09_delete_files_repo.
